@@ -4,6 +4,7 @@ import (
 	"bytes"
 	"errors"
 	"fmt"
+	"runtime"
 	"sync"
 	"testing"
 
@@ -154,10 +155,25 @@ func TestTransportWideNumbersGapFree(t *testing.T) {
 				}
 			} else {
 				info.RTPHeaderExtensions = []interceptor.RTPHeaderExtension{{URI: "urn:other", ID: 3}}
+				if rapid.Bool().Draw(t, "noExtensionsAtAll") {
+					info.RTPHeaderExtensions = nil // nothing negotiated at all (an RTX or FEC repair stream)
+				}
 				s.sink = &recordingWriter{}
 				s.w = ic.BindLocalStream(info, s.sink)
 			}
 			streams[i] = s
+		}
+		// a second interceptor built by the same factory (another peer connection) sends at the same time: the run of numbers belongs to
+		// one interceptor instance, whatever its siblings do
+		var sibling interceptor.RTPWriter
+		siblingSink := &recordingWriter{extID: 7}
+		if rapid.IntRange(0, 2).Draw(t, "siblingInstance") == 0 {
+			ic2, err := f.NewInterceptor("other")
+			if err != nil {
+				t.Fatalf("NewInterceptor (second instance): %v", err)
+			}
+			defer kit.BoundedClose(ic2.Close)
+			sibling = ic2.BindLocalStream(&interceptor.StreamInfo{SSRC: 999, RTPHeaderExtensions: []interceptor.RTPHeaderExtension{{URI: transportCCURI, ID: 7}}}, siblingSink)
 		}
 		// per-writer plans are fixed before the goroutines start (all randomness from rapid)
 		shapeSeed := rapid.Uint64().Draw(t, "shapeSeed")
@@ -198,8 +214,25 @@ func TestTransportWideNumbersGapFree(t *testing.T) {
 				}
 			}(w)
 		}
+		if sibling != nil {
+			wg.Add(1)
+			go func() {
+				defer wg.Done()
+				for k := 0; k < 3000; k++ {
+					h := rtp.Header{Version: 2, SSRC: 999, SequenceNumber: uint16(k)} //nolint:gosec
+					payload := []byte{byte(k)}
+					_, _ = sibling.Write(&h, payload, interceptor.Attributes{"ctx": &sendCtx{writer: 0, order: k, orig: h.Clone(), payload: payload}})
+					if k%16 == 0 {
+						runtime.Gosched()
+					}
+				}
+			}()
+		}
 		if o := kit.Guard(0, wg.Wait); !o.OK() {
 			t.Fatalf("writers did not finish: %s", o)
+		}
+		if len(siblingSink.errors) > 0 {
+			t.Fatalf("second instance of the factory: %s", siblingSink.errors[0])
 		}
 		_ = ic.Close()
 		counts := make([]int, 65536)
